@@ -732,6 +732,7 @@ func (e *Engine) invoke(st *State, instr ssa.Instruction, call *ssa.CallCommon, 
 		}
 	}
 	e.emit(st, "nil", e.site(instr, "nilrecv"), not(eq(recv.T, "0")), "interface receiver of "+m.Name()+" is non-nil "+e.posOf(instr.Pos()))
+	e.callSiteReqsNamed(st, instr, m.Name(), true, append([]*Val{recv}, args...))
 	if c := e.ifaceContract(m); c != nil {
 		e.callIfaceContract(st, instr, m, c, recv, args, k)
 		return
